@@ -50,6 +50,8 @@ def _map(c, fn):
         c = [k, c[1], [_map(x, fn) for x in c[2]]]
     elif k == "not":
         c = ["not", c[1], _map(c[2], fn)]
+    elif k == "sub":
+        c = ["sub", c[1], c[2], _map(c[3], fn)]
     return fn(c)
 
 
@@ -132,12 +134,27 @@ def _rename_cond(c, pi):
         return ["not", c[1], _rename_cond(c[2], pi)]
     if k == "forall":
         return ["forall", pi[c[1]], _rename_cond(c[2], pi)]
+    if k == "sub":
+        return ["sub", c[1], [pi[v] for v in c[2]], _rename_cond(c[3], pi)]
     raise ValueError(c)
 
 
 @st.composite
 def _pair(draw, tier):
     base = draw(query_case(_cfg(tier)))
+    if chance(draw, 1, 4):
+        # part of the condition wrapped as a nested sub-query (C15 says it means the same)
+        c = base["cond"]
+        nv = len(base["vars"])
+        v = draw(st.integers(0, nv - 1))
+        if c[0] in ("and", "or") and draw(st.booleans()):
+            i = draw(st.integers(0, len(c[2]) - 1))
+            kids = list(c[2])
+            if kids[i][0] != "const":
+                kids[i] = ["sub", "entity", [v], kids[i]]
+            base["cond"] = [c[0], c[1], kids]
+        elif not A.has_kind(c, "const"):
+            base["cond"] = ["sub", "entity", [v], c]
     var = copy.deepcopy(base)
     names = []
     sel_map = list(range(len(base["sel"])))       # variant position -> base position
